@@ -66,7 +66,9 @@ func (a *chunkError) unmarshal(raw []byte) error {
 			return fmt.Errorf("%w: %v", ErrBuildErrorChunkFailed, err) //nolint:errorlint
 		}
 
-		offset += int(e.length())
+		// causes are parameters (RFC 9260 sec 3.2.1): each but the last is padded
+		// to a multiple of four bytes, the padding is not part of its length
+		offset += int(e.length()) + getPadding(int(e.length()))
 		a.errorCauses = append(a.errorCauses, e)
 	}
 
@@ -77,10 +79,13 @@ func (a *chunkError) marshal() ([]byte, error) {
 	a.chunkHeader.typ = ctError
 	a.flags = 0x00
 	a.raw = []byte{}
-	for _, ec := range a.errorCauses {
+	for i, ec := range a.errorCauses {
 		raw, err := ec.marshal()
 		if err != nil {
 			return nil, err
+		}
+		if i != len(a.errorCauses)-1 {
+			raw = padByte(raw, getPadding(len(raw)))
 		}
 		a.raw = append(a.raw, raw...)
 	}
